@@ -86,3 +86,14 @@ Definition with_prefix (g : list N) (rs : list reg) : list reg :=
   map (fun r => (fst (fst r), join2 g (snd (fst r)), snd r)) rs.
 Definition engine_routes (gs : list group) : list reg :=
   flat_map (fun g => fold_left (fun rs pre => with_prefix pre rs) (fst g) (snd g)) gs.
+
+(* what the options ask for, whatever the position of WithRouter: the LAST not-found option decides
+   whether a custom not-found handler answers unmatched requests; the last of WithNotAllowedHandler /
+   WithCors decides who answers method mismatches; WithCors wraps the router *)
+Inductive wopt := WNotFound (custom : bool) | WNotAllowed | WCors | WRouter.
+Definition want_nf (opts : list wopt) : bool :=
+  fold_left (fun b o => match o with WNotFound c => c | _ => b end) opts false.
+Definition want_na (opts : list wopt) : nat :=
+  fold_left (fun n o => match o with WNotAllowed => 1 | WCors => 2 | _ => n end)%nat opts 0%nat.
+Definition want_cors (opts : list wopt) : bool :=
+  existsb (fun o => match o with WCors => true | _ => false end) opts.
